@@ -59,7 +59,8 @@ def implCls (j : Json) : String :=
 /-- API coverage of `serde_arrow::Error`: an error object written by `outcome::run_sa` carries, beside the message and
 annotations PARSED from the Display text (`msg`, `ann`), the accessor view `acc` of the same error.  The accessors agree
 when `message()` is the parsed message, Display is `Error: ` + message (+ ` (annotations)`), Debug repeats the Display
-text and continues on a new line (the backtrace note).  Returns the aspect that disagrees. -/
+text and continues on a new line (the backtrace note), and a wrapped cause (`source()`) is the one quoted at the end of the
+message.  Returns the aspect that disagrees. -/
 def accessorsDisagree (err : Json) : Option String :=
   match err.getObjVal? "acc" with
   | .error _ => none
@@ -75,7 +76,9 @@ def accessorsDisagree (err : Json) : Option String :=
     else if !hasAnn && display != "Error: " ++ message then some "display"
     else if hasAnn && !(display.startsWith ("Error: " ++ message ++ " (") && display.endsWith ")") then some "display-annotations"
     else if !(debug.startsWith (display ++ "\n")) then some "debug"
-    else none
+    else match acc.getObjValAs? String "source" with
+      | .ok src => if message.endsWith src then none else some "source"   -- every wrapped cause is quoted at the end of the message
+      | .error _ => none
 
 def hexDigit (c : Char) : Option Nat :=
   if '0' ≤ c ∧ c ≤ '9' then some (c.toNat - '0'.toNat)
